@@ -93,8 +93,11 @@ def scenario(draw):
 def judge(sc, obs) -> Result:
     if sc.get("episodes"):
         res = Result()
+        earlier = []
         for k, ep in enumerate(sc["episodes"]):
-            sub = judge_episode(ep, obs, k)
+            # thread payloads of an earlier run keep running: what they adopt later fails in the current run
+            sub = judge_episode(ep, obs, k, earlier)
+            earlier = earlier + [p for p in ep["payloads"] if p.get("role") == "failing"]
             for v in sub.violations:
                 v.message = f"[run {k + 1} of {len(sc['episodes'])} on the same runner instance] " + v.message
             res.violations += sub.violations
@@ -105,13 +108,13 @@ def judge(sc, obs) -> Result:
     return judge_episode(sc, obs, 0)
 
 
-def judge_episode(sc, obs, k) -> Result:
+def judge_episode(sc, obs, k, earlier=()) -> Result:
     res = Result()
-    failing = [p for p in sc["payloads"] if p.get("role") == "failing"]
+    failing = [p for p in sc["payloads"] if p.get("role") == "failing"] + list(earlier)
     desc = "; ".join(f"{p['flavour']} {p['end']} via {p.get('regmode')}" for p in failing) + f" [{sc['runner']}, {len(sc['payloads']) - len(failing)} others]"
     if obs.get("worker_error"):
         raise HarnessError("scenario worker failed: " + str(f"{obs['worker_error']} ({desc})"))
-    if obs.get("hang") or len(obs.get("episodes", [])) <= k:
+    if len(obs.get("episodes", [])) <= k:
         reached = {**obs.get("injected", {}), **obs.get("returned", {})}
         res.expensive = True
         res.fail("keeps-running", f"the blocking call did not end within {BOUND}s although a failure was injected ({desc}); failures reached: {reached}; "
@@ -192,6 +195,11 @@ def rerun(draw):
                 p["reg"] = {"how": "pre"}
         ep["payloads"] = [p for p in ep["payloads"] if not (p.get("role") == "parent" and any(i[0] == "service" for i in p["program"]))]
         ep["drivers"] = [[s for s in d if s["op"] != "service"] for d in ep["drivers"]]
+    for p in first["payloads"]:
+        if p.get("role") == "failing" and p["kind"] not in ("exc", "ret"):
+            # the first run ends through an ordinary failure (the statement is about one run; re-running after the
+            # loop was torn down by a BaseException is not claimed)
+            p["kind"], p["end"] = "exc", ["raise", "KeyError"]
     first["sigint"] = second["sigint"] = False
     first["drivers"] = [[s for s in d if s["op"] != "sigint"] for d in first["drivers"]]
     second["drivers"] = [[s for s in d if s["op"] != "sigint"] for d in second["drivers"]]
